@@ -13,9 +13,12 @@ func init() { register("C07", checkC07) }
 var c07Atoms = []string{`null`, `true`, `false`, `0`, `1`, `-1`, `1.5`, `""`, `"a"`, `"1"`, `[]`, `{}`}
 
 func checkC07(r *harness.Run) harness.Coverage {
-	r.Rule = "operands from W = V(2,1,A,{a}) with A = {null,true,false,0,1,-1,1.5,\"\",\"a\",\"1\",[],{}} (84 values), as literals and as document fields: all pairs x all eight binary operators, !x, !!x; all nestings of the fragment {||,&&,!,six comparators,parentheses} over fields a,b,c up to the token bound against all operand triples of a 12-value subset; the same conditions inside filters over arrays of W-values; short-circuit probes whose unevaluated side is an erroring call. Non-trivial = reference outcome non-null or error; distinct by (expression, document)"
+	r.Rule = "operands from W = V(2,1,A,{a}) with A = {null,true,false,0,1,-1,1.5,\"\",\"a\",\"1\",[],{}} plus 22 values differing only in key set, member order, element order or nesting (106 values), as literals and as document fields: all pairs x all eight binary operators, !x, !!x; all nestings of the fragment {||,&&,!,six comparators,parentheses} over fields a,b,c up to the structural weight bound against all operand triples of a 12-value subset; the same conditions inside filters over arrays of W-values; short-circuit probes whose unevaluated side is an erroring call. Non-trivial = reference outcome non-null or error; distinct by (expression, document)"
 	r.Assumptions = []string{"reference truth table, deep equality and numbers-only ordering: model/eval.go", "operand universe bounded to nesting depth 2, width 1"}
 	W := univ.Values(2, 1, univ.Js(c07Atoms...), []string{"a"})
+	// values that differ only in key set, member order, element order or nesting
+	W = append(W, univ.Js(`{"b":null}`, `{"b":1}`, `{"a":1,"b":2}`, `{"b":2,"a":1}`, `{"a":2,"b":1}`, `{"a":1,"b":null}`, `{"a":1,"c":null}`, `[1,2]`, `[2,1]`, `[1,[2]]`, `[[1],2]`, `[null]`, `[null,null]`,
+		`{"a":{"b":null}}`, `{"a":{"c":null}}`, `[{"a":null}]`, `[{"b":null}]`, `"A"`, `"é"`, `2`, `1e0`, `-0.0`)...)
 	sub := univ.Js(`null`, `true`, `false`, `0`, `1`, `2`, `""`, `"a"`, `[]`, `[0]`, `{}`, `{"a":null}`)
 	ops := []string{"||", "&&", "==", "!=", "<", "<=", ">", ">="}
 	var total conformStats
@@ -60,7 +63,7 @@ func checkC07(r *harness.Run) harness.Coverage {
 	// (3) nestings of two and three operators over a 12-value operand subset
 	maxTok := 5
 	if r.Thorough() {
-		maxTok = 7
+		maxTok = 6
 	}
 	g := univ.NewGen(univ.LogicFragment())
 	nest := buildExprs(g, maxTok, nil)
